@@ -127,11 +127,7 @@ func verifyEnforcedCanonicalJSON(input []byte) error {
 			valid = false
 			return false
 		}
-		if value.Num != 0 && strings.ContainsRune(value.Raw, '.') {
-			valid = false
-			return false
-		}
-		if value.Num != 0 && strings.ContainsRune(value.Raw, 'e') {
+		if value.Type == gjson.Number && strings.ContainsAny(value.Raw, ".eE") {
 			valid = false
 			return false
 		}
